@@ -58,10 +58,17 @@ pub fn collide_case(seed: u64, label: &str, index: u64) -> HistoryCase {
         surfaces,
         kinds: vec![ReaderKind::Str],
         raw_texts: None,
+        across_threads: false,
+        failed_parse_first: false,
     }
 }
 
 fn pick_options(r: &mut Rng) -> Options {
+    match r.below(6) {
+        4 => return Options::quick_xml_de().derive("Serialize, Deserialize, Debug, Clone, PartialEq, Default, Debug"),
+        5 => return Options::serde_xml_rs().derive("Debug, Clone, Debug, Clone"),
+        _ => {}
+    }
     match r.below(4) {
         0 => real::opts_qx(false),
         1 => real::opts_qx(true),
@@ -134,8 +141,17 @@ pub fn check_c05(case: &HistoryCase, reps: usize, threads: usize, rep: &mut Repo
     let mut canaries: HashSet<u64> = HashSet::new();
     let mut outputs: HashSet<u64> = HashSet::new();
     outputs.insert(fnv64(base.as_bytes()));
+    // a damaged copy of the first document, parsed (and rejected) between repetitions on this thread:
+    // state left behind by a failed call must not influence the next one
+    let damaged: Option<String> = texts[0].rfind("</").map(|p| format!("{}</mismatch>", &texts[0][..p]));
     for i in 0..reps {
         canaries.insert(canary_order(&names));
+        if i % 3 == 1 {
+            if let Some(d) = &damaged {
+                let _ = guarded(|| real::parse_bytes(d.as_bytes(), ReaderKind::Slice, Cfg::default()).is_ok());
+                rep.count("failed_parses_interleaved");
+            }
+        }
         match parse_and_render(&texts, &case.kinds, &o) {
             Ok(s) => {
                 if s != base {
@@ -368,7 +384,7 @@ fn run_texts(texts: &[String], kinds: &[ReaderKind], cfg: Cfg) -> Result<(String
 pub fn check_c11(case: &HistoryCase, rep: &mut Report) {
     rep.evaluations += 1;
     let mut r = Rng::new(fnv64(format!("{:?}", case.origin).as_bytes()));
-    let plain: Vec<String> = case.docs.iter().map(|d| gen::write_doc(d, &Surface { seed: 1, empty_style: 0, fancy: false })).collect();
+    let plain: Vec<String> = case.docs.iter().map(|d| gen::write_doc(d, &Surface { seed: 1, empty_style: 0, fancy: false, lead: 0 })).collect();
     let base = match run_texts(&plain, &[ReaderKind::Str], Cfg::default()) {
         Ok(b) => b,
         Err(e) => {
@@ -382,12 +398,12 @@ pub fn check_c11(case: &HistoryCase, rep: &mut Report) {
     }
     let mut variants: Vec<(&'static str, Vec<String>, Vec<ReaderKind>, Cfg)> = Vec::new();
     // (a) spelling of empty elements
-    let open_close: Vec<String> = case.docs.iter().map(|d| gen::write_doc(d, &Surface { seed: 1, empty_style: 1, fancy: false })).collect();
+    let open_close: Vec<String> = case.docs.iter().map(|d| gen::write_doc(d, &Surface { seed: 1, empty_style: 1, fancy: false, lead: 0 })).collect();
     if open_close != plain {
         rep.count("pairs_differing_in_empty_element_spelling");
     }
     variants.push(("empty-element-spelling", open_close, vec![ReaderKind::Str], Cfg::default()));
-    let mixed: Vec<String> = case.docs.iter().map(|d| gen::write_doc(d, &Surface { seed: r.next(), empty_style: 2, fancy: false })).collect();
+    let mixed: Vec<String> = case.docs.iter().map(|d| gen::write_doc(d, &Surface { seed: r.next(), empty_style: 2, fancy: false, lead: 0 })).collect();
     variants.push(("empty-element-spelling", mixed, vec![ReaderKind::Str], Cfg::default()));
     // (b) expand_empty_elements on the same bytes
     variants.push(("expand-empty-elements", plain.clone(), vec![ReaderKind::Str], Cfg::EXPAND_EMPTY));
@@ -395,8 +411,19 @@ pub fn check_c11(case: &HistoryCase, rep: &mut Report) {
     let kinds: Vec<ReaderKind> = (0..case.docs.len()).map(|_| ReaderKind::random(&mut r)).collect();
     variants.push(("reader-kind-or-buffer-size", plain.clone(), kinds, Cfg::default()));
     variants.push(("reader-kind-or-buffer-size", plain.clone(), vec![ReaderKind::BufReader(1)], Cfg::default()));
+    // (c2) blanks / a byte order mark in front of the document, through small buffers
+    for lead in [1u8, 2, 3] {
+        let t: Vec<String> = case.docs.iter().map(|d| gen::write_doc(d, &Surface { seed: 1, empty_style: 0, fancy: false, lead })).collect();
+        let k = match lead {
+            1 => ReaderKind::BufReader(*r.pick(&[1usize, 2, 3, 4, 5, 8])),
+            2 => ReaderKind::BufReader(*r.pick(&[1usize, 2, 3])),
+            _ => ReaderKind::Chunky(r.next(), 2),
+        };
+        variants.push(("prolog-blanks-or-bom", t.clone(), vec![k], Cfg::default()));
+        variants.push(("prolog-blanks-or-bom", t, vec![ReaderKind::Str], Cfg::default()));
+    }
     // (d) surface syntax: quotes, blanks in tags, character references
-    let fancy: Vec<String> = case.docs.iter().map(|d| gen::write_doc(d, &Surface { seed: r.next(), empty_style: 0, fancy: true })).collect();
+    let fancy: Vec<String> = case.docs.iter().map(|d| gen::write_doc(d, &Surface { seed: r.next(), empty_style: 0, fancy: true, lead: 0 })).collect();
     variants.push(("surface-syntax", fancy, vec![ReaderKind::Str], Cfg::default()));
     // (e) content rewrites: values, text<->CDATA, comments, PIs, declaration, DOCTYPE
     for _ in 0..2 {
@@ -406,7 +433,7 @@ pub fn check_c11(case: &HistoryCase, rep: &mut Report) {
             rep.inconclusive("rewrite changed the reference schema (generator fault)");
             continue;
         }
-        let t: Vec<String> = rewritten.iter().map(|d| gen::write_doc(d, &Surface { seed: 1, empty_style: 0, fancy: false })).collect();
+        let t: Vec<String> = rewritten.iter().map(|d| gen::write_doc(d, &Surface { seed: 1, empty_style: 0, fancy: false, lead: 0 })).collect();
         variants.push(("content-rewrite", t, vec![ReaderKind::Str], Cfg::default()));
         let t2: Vec<String> = rewritten.iter().map(|d| gen::write_doc(d, &Surface::seeded(r.next()))).collect();
         let kinds: Vec<ReaderKind> = (0..case.docs.len()).map(|_| ReaderKind::random(&mut r)).collect();
@@ -1003,7 +1030,18 @@ pub fn check_c10(case: &HistoryCase, rep: &mut Report) {
             return;
         }
     }
-    // the derive builder
+    // the derive builder reproduces any string verbatim (repeated traits, odd spacing)
+    for d in ["Debug, Clone, Debug", "Serialize,Deserialize , Debug", "A, A, A, B", " X ", ""] {
+        let o = Options::serde_xml_rs().derive(d);
+        if o.derive != d {
+            rep.violation(
+                "options:derive-builder-not-verbatim",
+                format!("Options::derive({:?}) stored {:?}", d, o.derive),
+                case.to_json(),
+            );
+            return;
+        }
+    }
     let b = Options::quick_xml_de().derive("X, Y");
     if b.derive != "X, Y" || b.attribute_prefix != "@" || b.text_identifier != "$text" {
         rep.violation("options:derive-builder", "Options::derive() changed something else than derive".into(), case.to_json());
